@@ -303,20 +303,38 @@ func VfUnkick(cc Cache) {
 	c.mu.Unlock()
 }
 
-// VfDrain waits (free-running mode) until the remover has no backlog.
+// VfDrain waits (free-running mode) until the remover has no backlog and is
+// idle. The byte counter alone cannot tell (zero-length files), so after the
+// queue looks empty an empty batch is sent as a barrier: the remover
+// announces every receive through its evict.recv hook, and once it has
+// announced another receive with the queue empty it has finished everything
+// that was queued before the barrier.
 func VfDrain(cc Cache) bool {
 	c := vfUnwrap(cc)
 	deadline := time.Now().Add(30 * time.Second)
-	for time.Now().Before(deadline) {
+	empty := func() bool {
 		c.mu.Lock()
 		n := len(c.lru.queuedEvictionsChan)
 		c.mu.Unlock()
-		if n == 0 && c.lru.queuedEvictionsSize.Load() == 0 {
+		return n == 0 && c.lru.queuedEvictionsSize.Load() == 0
+	}
+	for !empty() {
+		if time.Now().After(deadline) {
+			return false
+		}
+		time.Sleep(100 * time.Microsecond)
+	}
+	c1 := vsched.AwaitCalls()
+	VfKickEvictor(cc)
+	for {
+		if empty() && vsched.AwaitCalls() >= c1+1 {
 			return true
 		}
-		time.Sleep(200 * time.Microsecond)
+		if time.Now().After(deadline) {
+			return false
+		}
+		time.Sleep(50 * time.Microsecond)
 	}
-	return false
 }
 
 // VfShutdown ends the goroutines a cache instance owns (remover, backend
